@@ -25,12 +25,18 @@ META = {
             'extractor, ecosystem, source code, the purl ToPURL returned field by field (qualifiers in order), layer details (index within int32) verbatim, one record per package in order '
             '(tied to the real ScanResultToProto by the `proto` stream: harvested packages of every extractor + every metadata type of the proto switch + nasty strings); the model of '
             'ToSPDX23 / ToCDX (Model/Sbom.lean, tied by C15\'s stream) carries name / version / purl string (+ all locations for CycloneDX) of each package. '
+            'The rest of the record (model Model/ProtoResult.lean, tied by the `result` / `pfile` / `wfmt` ops): scan and plugin statuses, findings (advisory, id, type, severity, CVSS, target, extra, '
+            'detector names), the early error return and the deprecated copies; C14_result_outcome_partial (the outcome is the error of the FIRST finding without advisory / advisory id, else success), '
+            'C14_result_lossless_partial (reading the record back gives the result) — both under the hypotheses the current code needs, each shown necessary by a witness theorem '
+            '(C14_result_nil_severity_panics, C14_result_drops_detectors = the two recorded findings) — and C14_file_type (typeForPath, a model of filepath.Ext / TrimSuffix / the switch, accepts exactly '
+            'the paths ending in .binproto / .textproto [.gz], for ALL paths). '
             'With this the PROVABLE part covers every clause of the property except (a) the behaviour of the 58 ToPURL / Ecosystem implementations on what Extract returned (no panic, non-empty '
             'name and location) and (b) packageurl-go\'s printing/parsing (idempotence), which are third-party / per-extractor code exercised by the harvest, layout, accept and purlrt streams only. '
             'NOT proved: absence of panics in 58 ToPURL/Ecosystem implementations on arbitrary Extract output, packageurl-go print∘parse idempotence, non-empty name/location, '
             'converter field preservation — these are exercised by the harvest over all fixtures only (C03 generators / C02 corpus are not wired in).',
     'note': 'Trusted: Lean kernel; the go/ast translator (copies constants, map keys and selector names faithfully; output is human-diffable); harness and line protocol. '
-            'Known findings: C14/no-location (chrome/extensions and dotnet/pe emit packages without Locations; their unit tests pin that); C14/golang-case-normalised (go.mod module paths '
+            'Known findings: C14/jar-empty-artifact (a jar FILE NAME with nothing before the version gives a package without a name; repair prepared), C14/finding-detectors-dropped '
+            '(findingToProto does not copy Finding.Detectors; repair prepared), C14/finding-nil-severity-panics (an advisory without severity panics in severityToProto; repair prepared); C14/no-location (chrome/extensions and dotnet/pe emit packages without Locations; their unit tests pin that); C14/golang-case-normalised (go.mod module paths '
             'with upper-case letters: purl.FromString lower-cases golang namespace/name, so print∘parse∘print differs from print).',
 }
 NS = 'Scalibr.Index.'
@@ -38,11 +44,16 @@ THEOREMS = [NS + t for t in ['C14_types_accepted', 'C14_types_resolved', 'C14_ex
                              'C14_index', 'C14_index_type', 'C14_index_all', 'C14_index_has', 'C14_index_only']] + \
            ['Scalibr.ProtoPkg.' + t for t in ['toInt32_id', 'C14_proto_fields', 'C14_proto_purl', 'C14_proto_layer_partial', 'C14_proto_layer_wraps',
                                              'C14_proto_annotations', 'C14_proto_list', 'C14_proto_lossless_partial', 'C14_proto_not_injective_outside']] + \
-           ['Scalibr.Sbom.' + t for t in ['C14_spdx_fields', 'C14_spdx_not_verbatim', 'C14_cdx_fields']]
+           ['Scalibr.Sbom.' + t for t in ['C14_spdx_fields', 'C14_spdx_not_verbatim', 'C14_cdx_fields']] + \
+           ['Scalibr.ProtoResult.' + t for t in ['C14_result_outcome_partial', 'C14_result_nil_severity_panics', 'C14_result_lossless_partial',
+                                                'C14_result_drops_detectors', 'C14_result_status_default', 'C14_file_type']]
 KF_GOCASE = 'C14/golang-case-normalised'
 PROTO_KEYS = ['name', 'version', 'locs', 'src', 'anns', 'layer', 'purl', 'eco', 'ex', 'meta', 'pstr']
 KF_NOLOC = 'C14/no-location'
 NOLOC_EXTRACTORS = {'chrome/extensions', 'dotnet/pe'}
+KF_JAR = 'C14/jar-empty-artifact'
+KF_DETS = 'C14/finding-detectors-dropped'
+KF_NILSEV = 'C14/finding-nil-severity-panics'
 
 
 def unhex(h):
@@ -120,7 +131,13 @@ def run(ctx):
                        'standalone extractors (they read the running system) are covered by the type table only, not by the harvest',
                        'SPDX output summarises locations in free text and uses the purl\'s name/version by design; compared fields: name, version, purl locator, package count',
                        'Go map iteration order: GetAll / GetAllOfType compared as sets']
-    ctx.rule = ('boundary = 18 names at the syntax boundary of the purl namespace/name split (lone npm scope, `@scope/`, `/x`, `x/`, `a/b/c`, separators only, Maven `:artifact` / `group:`, '
+    ctx.rule = ('fname = identities derived from FILE / DIRECTORY names (the boundary stream substitutes into file content): 27 jar file names and 9 jars nested in a jar (nothing / separators only / purl '
+                'syntax characters before the version; java/archive without pom.properties), 9 nix store directory names, 14 homebrew cellar directory names, each created for real in a scratch tree, real '
+                'Extract, then the same strict chain as harvest; '
+                'result = 44 fixed results (every status / type / severity constant and the first value past it, every nil, error positions, int32 wrap) + 1 in 6 random cases: real ScanResultToProto vs the '
+                'Lean model (outcome + whole record) and vs the specification (outcome; reader of the real record = the result); pfile = 30 file names (really written by proto.Write, read back, format '
+                'observed by decoding) vs typeForPath model and the endings specification; wfmt = 7 formats through WriteWithFormat; accept n = 9 undeclared / malformed purl types must be rejected; '
+                'boundary = 18 names at the syntax boundary of the purl namespace/name split (lone npm scope, `@scope/`, `/x`, `x/`, `a/b/c`, separators only, Maven `:artifact` / `group:`, '
                 'module path ending in `/`, blank, `.`/`..`) substituted for a package name INSIDE up to 3 package-yielding fixtures of every extractor, real Extract -> ToPURL -> String -> FromString -> '
                 'index -> proto -> CycloneDX -> SPDX with the strict identity oracle; NOTE harvest: a fixture that yields no package passes trivially; their share is reported in harvest_no_package_share (about 37 %). '
                 'proto = generic fields of real harvested packages (<= 6 per fixture) + every metadata sample (28 switch types + 5 unknown) x 2 + random packages with nasty strings, nil/empty '
@@ -158,11 +175,11 @@ def run(ctx):
 
     def nontrivial(case, fi, fm):
         t = case.split(' ')
-        if t[0] in ('harvest', 'layout', 'boundary'):
+        if t[0] in ('harvest', 'layout', 'boundary', 'fname'):
             return fi.get('pk', '0') not in ('0', '')
         if t[0] == 'accept':
             return t[1] == 'e'
-        if t[0] in ('proto', 'purlrt'):
+        if t[0] in ('proto', 'purlrt', 'result', 'pfile', 'wfmt', 'pwerr', 'reach'):
             return True
         return t[1].count(',') >= 1
 
@@ -194,6 +211,16 @@ def run(ctx):
                 return 'name %r substituted into fixture %s of %s (names at the syntax boundary of the purl namespace/name split): %s%s' % (
                     unhex(t[3]), unhex(t[2]), unhex(t[1]), ', '.join(iss), (' — location | package | purl | issue: ' + ' ;; '.join(bad)) if bad else '')
             return None
+        if t[0] == 'fname':
+            totals['fname'] = totals.get('fname', 0) + 1
+            totals['fname_pk'] = totals.get('fname_pk', 0) + int(fi.get('pk', '0') or 0)
+            iss = issues_of(fi)
+            if iss:
+                bad = [unhex(b) for b in fi.get('bad', '-').split(',') if b != '-']
+                where = {'jar': 'a jar without pom.properties / manifest named %r', 'jarnest': 'a jar without pom.properties / manifest stored as %r inside outer-3.0.jar',
+                         'nix': 'a nix store directory nix/store/%r', 'brew': 'a homebrew cellar directory Cellar/%r/1.0'}.get(t[1], '%r') % unhex(t[2])
+                return '%s (identity derived from the file name): %s%s' % (where, ', '.join(iss), (' — location | package | purl | issue: ' + ' ;; '.join(bad)) if bad else '')
+            return None
         if t[0] == 'layout':
             dropped_meta.update(unhex(x) for x in fi.get('drop', '-').split(',') if x != '-')
             totals['layout_packages'] = totals.get('layout_packages', 0) + int(fi.get('pk', '0') or 0)
@@ -204,6 +231,13 @@ def run(ctx):
             return None
         if t[0] == 'accept':
             typ = unhex(t[2])
+            if t[1] == 'n':
+                must = fm.get('must') if fm else '0'
+                if must == '-1' and (fi.get('acc') == '1' or fi.get('accs') == '1'):
+                    return 'purl type %r is not in purl.validType\'s table (after lower-casing), but purl.FromString accepts a purl of that type' % typ
+                if must == '1' and (fi.get('acc') != '1' or fi.get('accs') != '1') and fi.get('why') == 'type':
+                    return 'purl type %r is in purl.validType\'s table after lower-casing (the parser lower-cases the type), but purl.FromString rejects it for its type' % typ
+                return None
             if t[1] == 'c':
                 if fi.get('acc') != '1':
                     rejected_consts.append('%s=%r' % (unhex(t[3]), typ))
@@ -231,6 +265,48 @@ def run(ctx):
             if bad:
                 return 'the result proto does not carry the package\'s fields verbatim: ' + '; '.join('%s: proto has %s, package has %s' % (k, fi.get(k), fm.get(k)) for k in bad[:4])
             return None
+        if t[0] == 'result':
+            if not fm or 'sres' not in fm:
+                return None
+            # SPEC on the implementation: (1) the outcome is the error of the first finding without advisory / advisory id, else success — never
+            # a panic (specOutcome); (2) on success, reading the REAL record back gives the result's generic content (C14_result_lossless_partial),
+            # wherever every value is one the record can represent
+            what = {'ok': 'succeeds', 'adv': 'returns ErrAdvisoryMissing', 'id': 'returns ErrAdvisoryIDMissing', 'panic': 'PANICS', 'other-error': 'returns an unknown error'}
+            if fi.get('res') != fm['sres']:
+                return 'proto.ScanResultToProto %s on a result for which the specification says it %s (findings: %s)' % (
+                    what.get(fi.get('res'), fi.get('res')), what.get(fm['sres'], fm['sres']), t[7] if len(t) > 7 else '?')
+            if fi.get('res') == 'ok' and fm.get('repr') == '1' and fi.get('gen') != fm.get('sgen'):
+                g, w = fi.get('gen', '').split('|'), fm.get('sgen', '').split('|')
+                names = ['version', 'start time', 'end time', 'scan status', 'plugin statuses', 'packages', 'findings']
+                diff = ['%s: record gives %s, result has %s' % (names[i] if i < len(names) else i, g[i] if i < len(g) else '?', w[i]) for i in range(len(w)) if i >= len(g) or g[i] != w[i]]
+                return 'reading the result proto back does not give the scan result (lossless conversion violated): ' + '; '.join(diff[:3])
+            return None
+        if t[0] == 'reach':
+            if fi.get('escaped', '-') != '-' or fi.get('bad', '-') != '-':
+                return 'extractor selection (%s): %s%s' % (t[1],
+                    'handed out extractors the harvest over list.All never saw: ' + ', '.join(unhex(x) for x in fi['escaped'].split(',')) if fi.get('escaped', '-') != '-' else '',
+                    ' ' + ' ;; '.join(unhex(x) for x in fi['bad'].split(',')) if fi.get('bad', '-') != '-' else '')
+            return None
+        if t[0] == 'pwerr':
+            if fi.get('werr') != '1':
+                return 'proto.Write returned nil although the write cannot have been completed (%s)' % t[1]
+            if fi.get('left') == '1':
+                return 'proto.Write reported an error (%s) but left a regular file at the path' % t[1]
+            return None
+        if t[0] in ('pfile', 'wfmt'):
+            if not fm or 'sft' not in fm:
+                return None
+            obs = fi.get('ft', '')
+            name = unhex(t[1])
+            if t[0] == 'pfile' and fi.get('vx') != '1':
+                return 'proto.ValidExtension and proto.Write disagree on the file name %r' % name
+            if t[0] == 'pfile' and (fi.get('made') == '1') != (not obs.startswith('err')):
+                return 'proto.Write(%r): %s' % (name, 'returned an error but left a file behind' if obs.startswith('err') else 'returned nil but wrote no file')
+            if obs.split(':')[0] != fm['sft']:
+                return '%s: the written file is %s, the specification (endings .binproto / .textproto, optional .gz%s) says %s' % (
+                    ('proto.Write to a file named %r' if t[0] == 'pfile' else 'proto.WriteWithFormat(format %r)') % name, obs,
+                    '' if t[0] == 'pfile' else '; format binproto = binary, anything else = text, never gzipped', {'err': 'the name must be rejected'}.get(fm['sft'], fm['sft']))
+            return None
         if t[0] == 'purlrt':
             if fi.get('ok') != '1' or fi.get('same') != '1' or fi.get('idx') != '1':
                 return 'purl of type %r with %s = %r: %s%s (%s)' % (unhex(t[1]), t[2], unhex(t[3]),
@@ -243,6 +319,25 @@ def run(ctx):
 
     def finding_class(case, fi, fm):
         t = case.split(' ')
+        if t[0] == 'result' and fm and len(t) == 8:
+            fnds = [] if t[7] == '_' else [f.split(';') for f in t[7].split(',')]
+            # class predicate: the conversion panics, the specification does not, and some finding with advisory and id has no severity
+            if fi.get('res') == 'panic' and any(f[0] != 'n' and not f[0].startswith('n~') and f[0].endswith('~n') for f in fnds):
+                return KF_NILSEV
+            # class predicate: the record differs from the result ONLY in the findings' detector names, which the record leaves empty
+            if fi.get('res') == 'ok' and fm.get('sres') == 'ok' and any(f[3] != '_' for f in fnds):
+                w = fm.get('sgen', '').split('|')
+                if len(w) == 7:
+                    w[6] = ','.join(';'.join(f.split(';')[:3] + ['_']) for f in w[6].split(',')) if w[6] != '_' else '_'
+                    if '|'.join(w) == fi.get('gen'):
+                        return KF_DETS
+        # class predicate: a jar FILE NAME with nothing before the version; the only issues are the empty name and its unparsable purl,
+        # and every witness is a nameless package whose purl is pkg:maven/@<version>
+        if t[0] == 'fname' and t[1] in ('jar', 'jarnest') and set(issues_of(fi)) == {'empty-name', 'purl-rejected'}:
+            base = unhex(t[2]).rsplit('/', 1)[-1]
+            wit = [unhex(b).split(' | ') for b in fi.get('bad', '-').split(',') if b != '-']
+            if base[:1] in '-_.' and wit and all(len(w) == 4 and w[1].startswith('@') and w[2] in ('', 'pkg:maven/' + w[1]) for w in wit):
+                return KF_JAR
         # class predicate: the only issue is that print∘parse changes the purl, every witness is a golang purl and the two
         # strings differ in letter case only (packageurl-go lower-cases golang namespace/name; Go module paths are case-sensitive)
         if t[0] == 'boundary' and issues_of(fi) == ['no-location'] and unhex(t[1]) in NOLOC_EXTRACTORS:
@@ -263,18 +358,28 @@ def run(ctx):
             return 'harvest:' + ('no-packages' if fi.get('pk') == '0' else 'issues=' + fi.get('issues', '?'))
         if t[0] == 'layout':
             return 'layout:issues=' + fi.get('issues', '?')
+        if t[0] == 'fname':
+            return 'fname-%s:%s' % (t[1], 'not-created' if fi.get('made') != '1' else 'no-packages' if fi.get('pk') == '0' else 'issues=' + fi.get('issues', '?'))
         if t[0] == 'boundary':
             return 'boundary:' + ('not-substituted' if fi.get('hit') != '1' else 'no-packages' if fi.get('pk') == '0' else 'issues=' + fi.get('issues', '?'))
         if t[0] == 'proto':
             return 'proto:meta=%s purl=%s layer=%s' % (fi.get('meta'), 'nil' if fi.get('purl') == '_' else 'set', 'nil' if fi.get('layer') == '_' else 'set')
+        if t[0] == 'result':
+            return 'result:%s repr=%s' % (fi.get('res'), fm.get('repr') if fm else '?')
+        if t[0] in ('pfile', 'wfmt'):
+            return '%s:%s' % (t[0], fi.get('ft'))
+        if t[0] == 'pwerr':
+            return 'pwerr:' + t[1]
+        if t[0] == 'reach':
+            return 'reach:' + t[1]
         if t[0] == 'purlrt':
             return 'purlrt:' + ('ok' if (fi.get('ok'), fi.get('same'), fi.get('idx')) == ('1', '1', '1') else 'FAIL')
         if t[0] == 'accept':
-            return 'accept-%s:%s' % ({'e': 'emitted', 'c': 'constant'}[t[1]], 'accepted' if fi.get('acc') == '1' and fi.get('accs') == '1' else 'REJECTED')
+            return 'accept-%s:%s' % ({'e': 'emitted', 'c': 'constant', 'n': 'undeclared'}[t[1]], 'accepted' if fi.get('acc') == '1' and fi.get('accs') == '1' else 'REJECTED')
         return 'index'
 
     lib.standard_stream(ctx, gen='c14gen', driver='drv_c14', gen_args=['-seed', str(ctx.seed), '-n', str(n), '-tier', ctx.tier] + (['-types', types_file] if types_file else []),
-                        compare_keys=['obs', 'ok', 'same', 'idx'] + PROTO_KEYS, nontrivial=nontrivial, oracle=oracle, classify=classify, finding_class=finding_class, sample_every=211)
+                        compare_keys=['obs', 'ok', 'same', 'idx', 'res', 'rec', 'ft', 'werr', 'left'] + PROTO_KEYS, nontrivial=nontrivial, oracle=oracle, classify=classify, finding_class=finding_class, sample_every=211)
     if unparsed:
         ctx.notes.append('emitted purl types for which no probe shape parses in packageurl-go (not judged): ' + ', '.join(unparsed))
     if dropped_meta:
@@ -284,6 +389,7 @@ def run(ctx):
     if rejected_consts:
         ctx.notes.append('purl type constants declared in purl.go that purl.FromString rejects (informational: no built-in ToPURL emits them): ' + ', '.join(rejected_consts))
     ctx.extra['layout_packages'] = totals.get('layout_packages', 0)
+    ctx.extra['file_name_identities'] = {'cases': totals.get('fname', 0), 'packages_emitted': totals.get('fname_pk', 0)}
     ctx.extra['boundary_names'] = {'cases': totals.get('boundary', 0), 'name_substituted': totals.get('boundary_hit', 0), 'packages_emitted': totals.get('boundary_pk', 0)}
     nopk = ctx.dist.get('harvest:no-packages', 0)
     ctx.extra['harvest_no_package_share'] = {'fixtures_without_any_package': nopk, 'of': totals['fixtures'],
@@ -298,5 +404,8 @@ def run(ctx):
             ctx.violation('known finding %s no longer reproduces from the fixtures: update known_findings.txt' % KF_GOCASE, ['# ' + KF_GOCASE], found_input=False, name='stale-C14-golang-case')
         if KF_NOLOC in ctx.known and KF_NOLOC not in ctx.known_hits:
             ctx.violation('known finding %s no longer reproduces from the fixtures: update known_findings.txt' % KF_NOLOC, ['# ' + KF_NOLOC], found_input=False, name='stale-C14-no-location')
+        for kf in (KF_JAR, KF_DETS, KF_NILSEV):
+            if kf in ctx.known and kf not in ctx.known_hits:
+                ctx.violation('known finding %s no longer reproduces: update known_findings.txt' % kf, ['# ' + kf], found_input=False, name='stale-' + kf.replace('/', '-'))
     if not proofs_ok:
         lib.proof_failed(ctx, 'Scalibr.Properties.C14')
